@@ -195,6 +195,12 @@ def gen_scenario(rng: random.Random, kind=None) -> Scenario:
     refs = []
     for i in range(nref):
         R = gens.make_reference(rng, rng.randrange(40, 140), 9000, rng.choice([500, 2000]))
+        if kind == "tied":
+            # coincident labels (two sites at one coordinate) are legal CMAP input: every label keeps its own
+            # number, so the numbers after the tie must still name the coordinates the header reports
+            for _ in range(rng.randrange(1, 4)):
+                j = rng.randrange(2, len(R) - 2)
+                R = R[:j] + [R[j]] + R[j:]
         refs.append((i + 1 if rng.random() < 0.7 else (i + 1) * 7, R[-1] + 1 + rng.randrange(100, 20000), R))
     queries = []
     nq = rng.randrange(3, 9)
@@ -228,6 +234,11 @@ def gen_scenario(rng: random.Random, kind=None) -> Scenario:
             else:
                 Q = gens.rand_map(rng, 300, 9000, 500)
                 Q = [q - Q[0] for q in Q]  # longer than every reference
+        elif kind == "tied":
+            Q, _, _ = gens.make_query(rng, R, rng.random() < 0.5)
+            if rng.random() < 0.5 and len(Q) > 6:
+                j = rng.randrange(2, len(Q) - 2)
+                Q = Q[:j] + [Q[j]] + Q[j:]
         else:
             Q, _, _ = gens.make_query(rng, R, kind != "plain")
         if rng.random() < 0.5:
